@@ -52,8 +52,9 @@ ENGINES = [
      "kind_free_text": "differential: Go operator factories/Evaluate vs Lean models (= documented predicates)"},
 ]
 _ENG_NOTE = (_TB + "Operators and transformations are parameters of the engine theorems (proved for every interpretation); "
-             "the driver instantiates them with the C14/C15 models and the regex model. @rx inside the engine, body processors, multiphase build are "
-             "outside the engine model.")
+             "the driver instantiates them with the C14/C15 models and the regex model (@rx inside the engine on the modelled RE2 fragment over ASCII). "
+             "The capture action's submatches (compared through Go's regexp as oracle), body processors inside the engine cases and the multiphase "
+             "build are outside the engine model.")
 CLAIMED = {
     "C01": dict(
         text="Lean 4 theorems over the engine model: key selection returns exactly the entries whose key equals the selector "
